@@ -2,6 +2,7 @@ import Clover.Props.C04
 import Clover.Spec.Spec
 import Clover.Proofs.RefineReads
 import Clover.Proofs.RefineFindAll
+import Clover.Proofs.ReadsExact
 /-! # C09 — Count, Exists, FindFirst, ForEach and FindById agree with FindAll; reads are pure -/
 namespace CV.Props.C09
 open CV
@@ -48,5 +49,32 @@ theorem findFirst_is_head_partial (s : Spec.State) (σ : KVS) (hw : WF s) (hr : 
     (coll : Spec.Coll) (hc : Keys.Clean q.coll) (hl : Spec.lookup q.coll s = some coll) (hni : coll.indexes = []) :
     (withTx false (Op.body likeFn fnFam (.findFirst q)) noFault σ).1 = (Spec.step likeFn fnFam s (.findFirst q)).1 :=
   findFirst_refines_noindex likeFn fnFam s σ hw hr q coll hc hl hni
+
+/-- `Count`, `Exists`, `FindFirst`, `ForEach` (including a consumer that stops after `n` documents)
+    agree with `FindAll` whenever the plan is a full scan — any index set: each is the
+    specification's answer, and the specification defines all of them from `findAll`. -/
+theorem count_is_length (s : Spec.State) (σ : KVS) (hw : WF s) (hr : Rep s σ) (q : Query) (coll : Spec.Coll)
+    (hl : Spec.lookup q.coll s = some coll) (hplan : choosePlan coll.indexes q = (.full, false)) :
+    (withTx false (Op.body likeFn fnFam (.count q)) noFault σ).1 = (Spec.step likeFn fnFam s (.count q)).1 :=
+  count_refines_full likeFn fnFam s σ hw hr q coll hl hplan
+theorem forEach_is_prefix (s : Spec.State) (σ : KVS) (hw : WF s) (hr : Rep s σ) (q : Query) (k : Option Nat) (coll : Spec.Coll)
+    (hl : Spec.lookup q.coll s = some coll) (hplan : choosePlan coll.indexes q = (.full, false)) :
+    (withTx false (Op.body likeFn fnFam (.forEach q k)) noFault σ).1 = (Spec.step likeFn fnFam s (.forEach q k)).1 :=
+  forEach_refines_full likeFn fnFam s σ hw hr q k coll hl hplan
+theorem exists_iff_nonempty (s : Spec.State) (σ : KVS) (hw : WF s) (hr : Rep s σ) (q : Query) (coll : Spec.Coll)
+    (hl : Spec.lookup q.coll s = some coll) (hplan : choosePlan coll.indexes { q with limit := 1 } = (.full, false)) :
+    (withTx false (Op.body likeFn fnFam (.exists_ q)) noFault σ).1 = (Spec.step likeFn fnFam s (.exists_ q)).1 :=
+  exists_refines_full likeFn fnFam s σ hw hr q coll hl hplan
+theorem findFirst_is_head (s : Spec.State) (σ : KVS) (hw : WF s) (hr : Rep s σ) (q : Query) (coll : Spec.Coll)
+    (hl : Spec.lookup q.coll s = some coll) (hplan : choosePlan coll.indexes { q with limit := 1 } = (.full, false)) :
+    (withTx false (Op.body likeFn fnFam (.findFirst q)) noFault σ).1 = (Spec.step likeFn fnFam s (.findFirst q)).1 :=
+  findFirst_refines_full likeFn fnFam s σ hw hr q coll hl hplan
+
+/-- … and `Count` with criteria agrees with the specification's count under ANY plan (index range,
+    index order, full scan), with any sort, skip and limit, on the key domain. -/
+theorem count_is_length_any_plan (s : Spec.State) (σ : KVS) (hw : WF s) (hr : Rep s σ) (q : Query) (cr : Crit)
+    (hq : q.crit = some cr) (coll : Spec.Coll) (hl : Spec.lookup q.coll s = some coll) (hdomain : KeyDomain q coll) :
+    (withTx false (Op.body likeFn fnFam (.count q)) noFault σ).1 = (Spec.step likeFn fnFam s (.count q)).1 :=
+  count_exact_any_plan likeFn fnFam s σ hw hr q cr hq coll hl hdomain
 
 end CV.Props.C09
